@@ -896,3 +896,193 @@ func (e *Engine) orderIndependentRange(rg *ssa.Range) (bool, string) {
 	}
 	return true, ""
 }
+
+// ---------------------------------------------------------------------------
+// PAIR-created-file-sync: a function that creates a file through a vfs-like
+// file system and writes to it itself makes the content durable: the
+// function (or one of its deferred closures) fsyncs the file handle. A
+// directory sync or a Close alone leaves the content in the page cache.
+func ruleCreatedFileSync(e *Engine, r *Report, minInst int, pkgs ...string) {
+	n := 0
+	for _, fn := range e.ScopeFuncs() {
+		p := fnPkg(fn)
+		if p == nil || fn.Parent() != nil {
+			continue
+		}
+		in := false
+		for _, rel := range pkgs {
+			if e.pkgTypes(rel) == p {
+				in = true
+			}
+		}
+		if !in || !e.IsLive(fn) {
+			continue
+		}
+		var create ssa.CallInstruction
+		writes, syncs := false, false
+		e.forEachInstrRegion(fn, 0, func(x ssa.Instruction) {
+			c, ok := x.(ssa.CallInstruction)
+			if !ok {
+				return
+			}
+			if isIfaceInvoke(c, "Create", "Create", "Rename") && c.Parent() == fn {
+				create = c
+			}
+			if isIfaceInvoke(c, "Write", "Sync", "Close", "Write") || isIfaceInvoke(c, "WriteAt", "Sync", "Close", "Write") {
+				writes = true
+			}
+			if isIfaceInvoke(c, "Sync", "Sync", "Close", "Write") {
+				syncs = true
+			}
+		})
+		if create == nil || !writes {
+			continue
+		}
+		// the created handle may be wrapped (writer around the file): writes through wrappers count via the region check below
+		n++
+		r.check(syncs, "PAIR-created-file-sync", fname(fn)+" fsyncs the file it creates and writes", e.ipos(create),
+			"the written content is durable when the function reports success",
+			"a file is created and written but never fsynced by the function: after a power loss the file exists with empty or partial content")
+	}
+	r.floor("PAIR-created-file-sync", n, minInst)
+}
+
+// ---------------------------------------------------------------------------
+// TBL-codec-threshold: hand-optimised codecs switch between a varint and a
+// fixed-width form at a threshold constant; the sizing function and the
+// encoder of the same type must switch at the same thresholds per field.
+func ruleCodecThresholds(e *Engine, r *Report, minInst int, pkg string, pairs [][2]string) {
+	n := 0
+	collect := func(fn *ssa.Function) map[string]string {
+		out := map[string]string{}
+		forEachInstr(fn, func(in ssa.Instruction) {
+			b, ok := in.(*ssa.BinOp)
+			if !ok || cmpString(b.Op) == "" {
+				return
+			}
+			var c *ssa.Const
+			var other ssa.Value
+			if k, ok := b.Y.(*ssa.Const); ok {
+				c, other = k, b.X
+			} else if k, ok := b.X.(*ssa.Const); ok {
+				c, other = k, b.Y
+			}
+			if c == nil || c.Value == nil {
+				return
+			}
+			// only large thresholds (>= 2^32): small constants are varint continuation tests
+			if v, ok := constantUint64(c); !ok || v < 1<<32 {
+				return
+			}
+			fld := ""
+			e.dependsOn(other, func(v ssa.Value) bool {
+				if f, _, ok := loadedField(v); ok && fld == "" {
+					fld = f.Name()
+				}
+				return false
+			}, 0)
+			if fld != "" {
+				if prev, ok := out[fld]; ok && prev != c.Value.ExactString() {
+					out[fld] = prev + "," + c.Value.ExactString()
+				} else {
+					out[fld] = c.Value.ExactString()
+				}
+			}
+		})
+		return out
+	}
+	for _, pr := range pairs {
+		a, b := e.Func(pr[0]), e.Func(pr[1])
+		if a == nil || b == nil {
+			r.undecided("ANCHOR", pr[0]+"/"+pr[1], "codec sibling no longer resolves")
+			continue
+		}
+		ta, tb := collect(a), collect(b)
+		for fld, va := range ta {
+			n++
+			vb, ok := tb[fld]
+			r.check(ok && va == vb, "TBL-codec-threshold", short(pr[0])+" and "+short(pr[1])+" switch encodings of "+fld+" at the same threshold", e.pos(a.Pos()),
+				"size and encoder agree on where the fixed-width form starts",
+				"the sizing function switches the encoding of "+fld+" at "+va+" but the encoder at "+vb+": Size() disagrees with the bytes written for values between the two")
+		}
+	}
+	r.floor("TBL-codec-threshold", n, minInst)
+}
+
+func constantUint64(c *ssa.Const) (uint64, bool) {
+	if c.Value == nil {
+		return 0, false
+	}
+	s := c.Value.ExactString()
+	var v uint64
+	for _, ch := range s {
+		if ch < '0' || ch > '9' {
+			return 0, false
+		}
+		v = v*10 + uint64(ch-'0')
+	}
+	return v, true
+}
+
+// ruleVarintLadder: the varint sizing helper decides the encoded width from
+// 7-bit groups: whatever its form (shift loop or comparison ladder), every
+// constant it compares the value with is a boundary of a 7-bit group (2^(7k),
+// or 2^(7k)-1), and every shift is by 7.
+func ruleVarintLadder(e *Engine, r *Report, fnKey string) {
+	fn := r.need(fnKey)
+	if fn == nil {
+		return
+	}
+	ok := true
+	var bad ssa.Instruction
+	n := 0
+	forEachInstr(fn, func(in ssa.Instruction) {
+		b, isB := in.(*ssa.BinOp)
+		if !isB {
+			return
+		}
+		var c *ssa.Const
+		if k, isC := b.Y.(*ssa.Const); isC {
+			c = k
+		} else if k, isC := b.X.(*ssa.Const); isC {
+			c = k
+		}
+		if c == nil {
+			return
+		}
+		v, isU := constantUint64(c)
+		if !isU {
+			return
+		}
+		switch {
+		case b.Op.String() == ">>" || b.Op.String() == "<<":
+			n++
+			if v != 7 {
+				ok, bad = false, in
+			}
+		case cmpString(b.Op) != "":
+			if bt, isBasic := b.X.Type().Underlying().(*types.Basic); !isBasic || bt.Info()&types.IsInteger == 0 {
+				return
+			}
+			n++
+			if v == 0 {
+				return
+			}
+			good := false
+			for k := uint(1); k <= 9; k++ {
+				if v == 1<<(7*k) || v == 1<<(7*k)-1 {
+					good = true
+				}
+			}
+			if !good {
+				ok, bad = false, in
+			}
+		}
+	})
+	pos := e.pos(fn.Pos())
+	if bad != nil {
+		pos = e.ipos(bad)
+	}
+	r.check(ok && n > 0, "TBL-codec-varint", short(fnKey)+" sizes varints by 7-bit groups", pos,
+		"width boundaries are multiples of 7 bits", "the varint sizing helper compares with / shifts by a constant that is not a 7-bit group boundary: values in the affected band are sized one byte short of what the encoder writes")
+}
